@@ -5,14 +5,17 @@
    (root, database, reference counts) (C05_abort); a commit that fails on a non-pruning trie
    leaves the root and keeps every earlier entry (C05_commit_fail_root etc.); the commit of a
    non-pruning trie removes nothing (C04_append_only_batch).
-   NOT yet proved (rests on this run's correspondence cases and the reachable-set oracle):
-   after a normal exit every node needed for the new root is present and no node that served
-   only intermediate states was added (this needs the exactness of the inner pruning trie,
-   i.e. property C06 for a trie whose counts do not cover pre-existing nodes). *)
-From Coq Require Import List NArith Bool.
-From PyTrie.Base Require Import Bytes Result AMap.
+   The commit clause (Hexary/Refine_batch.v, by a simulation between the ScratchDB-backed batch
+   trie and an exact pruning trie): after a normal exit the outer trie is exactly the trie of
+   the block's writes applied in order — for a pruning outer trie counts and database stay
+   exact (C05_commit_pruning); for a non-pruning outer trie the new store represents the new
+   tree, contains the old store, and every key it ADDS is a node of the FINAL tree, so no node
+   that served only an intermediate state is added (C05_commit_nonpruning).  An aborted block
+   inside any history changes nothing (C05_abort_in_history). *)
+From Coq Require Import List NArith ZArith Bool.
+From PyTrie.Base Require Import Bytes Result AMap Nibbles Rlp.
 From PyTrie.Db Require Import ScratchDb.
-From PyTrie.Hexary Require Import Raw D D_safety.
+From PyTrie.Hexary Require Import Raw Tree D D_safety D_read Refine_read Refine_write Refine_write_prune Refine_batch.
 Import ListNotations.
 
 Theorem C05_abort : forall H BNH outer s ops,
@@ -36,3 +39,48 @@ Theorem C05_commit_nonpruning_keeps_everything : forall H BNH outer s ops r t',
   (forall e, r = Err e -> t_root t' = t_root outer).
 Proof. exact D_safety.C04_append_only_batch. Qed.
 Print Assumptions C05_commit_nonpruning_keeps_everything.
+
+(* ---- the commit clause ---- *)
+(* [SB] is a finite set of node bodies on which H has no collision and which contains the bodies
+   of every intermediate tree of the block; [pinv] is the exactness invariant of C06 *)
+Theorem C05_commit_pruning : forall H BNH, (forall x, length (H x) = 32%nat) -> BNH = H (rlp_encode (RStr [])) ->
+  forall SB, cf H SB -> In (rlp_encode (RStr [])) SB ->
+  forall (ws : list wop) t m rc,
+  pinv H SB m rc t -> canonical_top t = true -> decodable H t -> no_blank_collision H BNH t -> inS H SB t ->
+  incl (flat_map (tree_bodies H) (hist_trees t (map top_of ws))) SB ->
+  Forall (decodable H) (hist_trees t (map top_of ws)) ->
+  let t' := fold_left tapply (map top_of ws) t in
+  exists inner m' rc',
+    wrun H BNH ws (batch_begin (pstate H m rc t)) = (map (fun _ => Ok tt) ws, inner) /\
+    batch_commit H BNH (pstate H m rc t) inner = (Ok tt, pstate H m' rc' t') /\
+    pinv H SB m' rc' t' /\ canonical_top t' = true /\ decodable H t' /\ no_blank_collision H BNH t' /\ inS H SB t'.
+Proof. exact Refine_batch.batch_commit_ps. Qed.
+Print Assumptions C05_commit_pruning.
+
+Theorem C05_commit_nonpruning : forall H BNH, (forall x, length (H x) = 32%nat) -> BNH = H (rlp_encode (RStr [])) ->
+  forall SB, cf H SB -> In (rlp_encode (RStr [])) SB ->
+  forall (ws : list wop) t m,
+  represents H m (troot H t) t -> within H SB m -> canonical_top t = true -> decodable H t ->
+  no_blank_collision H BNH t -> inS H SB t ->
+  incl (flat_map (tree_bodies H) (hist_trees t (map top_of ws))) SB ->
+  Forall (decodable H) (hist_trees t (map top_of ws)) ->
+  let t' := fold_left tapply (map top_of ws) t in
+  exists inner m',
+    wrun H BNH ws (batch_begin (plain m (troot H t))) = (map (fun _ => Ok tt) ws, inner) /\
+    batch_commit H BNH (plain m (troot H t)) inner = (Ok tt, plain m' (troot H t')) /\
+    represents H m' (troot H t') t' /\ within H SB m' /\
+    sub_store m m' /\                                                            (* nothing removed *)
+    (forall k, amem m' k = true -> amem m k = false -> Z.lt 0%Z (occR H t' k)) /\   (* only nodes of the final tree added *)
+    canonical_top t' = true /\ decodable H t' /\ no_blank_collision H BNH t' /\ inS H SB t'.
+Proof. exact Refine_batch.batch_commit_np. Qed.
+Print Assumptions C05_commit_nonpruning.
+
+(* an aborted block, as a step of a history *)
+Theorem C05_abort_in_history : forall H BNH ws s st,
+  t_db s = DPlain st -> hstep H BNH (Batch ws true) s = (Err EAbort, s).
+Proof. exact Refine_batch.hstep_abort. Qed.
+Print Assumptions C05_abort_in_history.
+
+(* non-vacuity under Keccak-256, incl. a DELETED marker on a key the wrapped store still holds *)
+Print Assumptions ex_hs_eval.
+Print Assumptions ex_read_through.
